@@ -284,7 +284,7 @@ pub fn check_it(c: &ItCase) -> CaseResult {
         .class_if(c.script.iter().flatten().count() == 0, "empty-source"))
 }
 
-fn cb_strategy() -> impl Strategy<Value = CbCase> {
+pub fn cb_strategy() -> impl Strategy<Value = CbCase> {
     (0u8..64)
         .prop_flat_map(|n| {
             (
@@ -299,7 +299,7 @@ fn cb_strategy() -> impl Strategy<Value = CbCase> {
         .prop_map(|(n, stop_at, sink, feeder, dup_vals, split)| CbCase { n, stop_at, sink, feeder, dup_vals, split })
 }
 
-fn it_strategy() -> impl Strategy<Value = ItCase> {
+pub fn it_strategy() -> impl Strategy<Value = ItCase> {
     let seg = prop_oneof![
         4 => (0u8..3, 0u8..8).prop_map(|(c, k)| Seg::Wrapped(c, k)),
         2 => (0u8..4).prop_map(Seg::Direct),
